@@ -189,34 +189,49 @@ class C03(Property):
         if line.startswith("pc "):
             return self.oracle_pc(line, impl_out)
         alg, key, ra, rb, ops = cu.parse_line(line)
-        if any(o.startswith("n.") for o in ops):
-            return None
         outs = impl_out.split()
         if len(outs) != len(ops):
             return "driver returned %d results for %d operations: %s" % (len(outs), len(ops), impl_out[:100])
-        ctr = []
-        g2, g1, g0 = [], [], []
+        # per key slot, as the property is stated: a datagram belongs to the key INSTANCE it was sealed under; every rotation
+        # installs a new instance with an empty history in its slot (id mod 4); a tick advances the history of EVERY slot
+        send_kid = {"a": [key, None, None, None], "b": [key, None, None, None]}     # key instance per slot, per sealing end
+        recv = {e: [{"kid": (key if k == 0 else None), "g": ([], [], [])} for k in range(4)] for e in "ab"}
+        sent = []          # (sealing end, slot byte, key instance, counter)
         for o, r in zip(ops, outs):
             p = o.split(".")
+            if r == "panic":
+                return "panic at op " + o
             if p[0] == "s":
                 if not r.startswith("S"):
                     return "seal failed: " + r
-                ctr.append(int(r.split(":")[1], 16))
+                slot = int(r[1:].split(":")[0])
+                sent.append((p[1], slot, send_kid[p[1]][slot % 4], int(r.split(":")[1], 16)))
             elif p[0] == "k":
-                g2, g1, g0 = g2 + g1, g0, []
+                for sl in recv[p[1]]:
+                    g2, g1, g0 = sl["g"]
+                    sl["g"] = (g2 + g1, g0, [])
+            elif p[0] == "n":
+                end, kid, ident, use = p[1], int(p[2]), int(p[3]), p[4] == "1"
+                recv[end][ident % 4] = {"kid": kid, "g": ([], [], [])}
+                send_kid[end][ident % 4] = kid
             elif p[0] == "d":
-                n = ctr[int(p[2])]
-                want = all(m < n for m in g2)
+                i = int(p[2])
+                if i >= len(sent):
+                    continue
+                _, slot, kid, ctr = sent[i]
+                sl = recv[p[1]][slot % 4]
+                g2, g1, g0 = sl["g"]
+                same_key = sl["kid"] is not None and sl["kid"] == kid
+                want = same_key and all(m < ctr for m in g2)
                 got = r.startswith("ok:")
-                if r == "panic":
-                    return "panic on delivery"
                 if want != got:
-                    return "delivery of counter %x %s, but the counters accepted before the tick preceding the most recent tick are %s" % (
-                        n, "accepted" if got else "rejected", ["%x" % m for m in g2])
+                    if not same_key:
+                        return "datagram sealed under key instance %s in slot %d was %s by an end holding %s in that slot" % (
+                            kid, slot, "accepted" if got else "rejected", sl["kid"])
+                    return ("delivery of counter %x (key slot %d) %s, but the counters accepted in that slot before the tick preceding the "
+                            "most recent tick are %s") % (ctr, slot, "accepted" if got else "rejected", ["%x" % m for m in g2])
                 if got:
-                    if r != "ok:%02x" % (int(p[2]) & 0xff) and not r.startswith("ok:"):
-                        return "payload altered"
-                    g0.append(n)
+                    g0.append(ctr)
         return None
 
 
